@@ -4,7 +4,10 @@ go 1.26.0
 
 toolchain go1.26.2
 
-require github.com/sarchlab/akita/v5 v5.0.0
+require (
+	github.com/sarchlab/akita/v5 v5.0.0
+	golang.org/x/tools v0.39.0
+)
 
 require (
 	github.com/dustin/go-humanize v1.0.1 // indirect
@@ -20,6 +23,8 @@ require (
 	github.com/tebeka/atexit v0.3.0 // indirect
 	github.com/tklauser/go-sysconf v0.3.15 // indirect
 	github.com/tklauser/numcpus v0.10.0 // indirect
+	golang.org/x/mod v0.30.0 // indirect
+	golang.org/x/sync v0.18.0 // indirect
 	golang.org/x/sys v0.38.0 // indirect
 	modernc.org/libc v1.37.6 // indirect
 	modernc.org/mathutil v1.6.0 // indirect
